@@ -261,14 +261,31 @@ class FnGuards:
                 best = (h, blocks)
         return best
 
-    def covers_every_iteration(self, edge):
-        """edge's block lies in a loop and dominates every latch (back-edge source) of that loop"""
+    def covers_every_iteration(self, edge, bypass=None):
+        """edge's block lies in a loop and every path from the loop header to a latch (back-edge
+        source) passes through it — except along `bypass` edges (allowed ways around the check)"""
         lp = self.loop_of(edge.block)
         if lp is None:
             return False
         h, blocks = lp
-        latches = [t for (t, hh) in self.body.back_edges() if hh == h]
-        return all(self.body.dominates(edge.block, t) for t in latches)
+        latches = set(t for (t, hh) in self.body.back_edges() if hh == h)
+        if bypass is None:
+            return all(self.body.dominates(edge.block, t) for t in latches)
+        removed = set((e.block, e.target) for e in self.edges if bypass(e))
+        if edge.block == h:
+            return True
+        seen = {h}
+        st = [h]
+        while st:
+            n = st.pop()
+            if n in latches:
+                return False
+            for s in self.body.succ[n]:
+                if s not in blocks or s == edge.block or (n, s) in removed or s in seen or s == h:
+                    continue
+                seen.add(s)
+                st.append(s)
+        return True
 
 
 def classify_value(e):
